@@ -3,7 +3,18 @@
 # manifest stays valid and in step with checks.json).
 import json
 ids=[f"C{i:02d}" for i in range(1,18)]
+GRAM_NOTE="Trusted: go/packages+go/ssa, the gosym interpreter/simplifier/SMT printer (byte-domain propagation decides single-byte branch conditions, every completed path condition is certified by z3 and the replayed model is z3's), z3 4.8.12, the harness oracle. Grammars: the bounded family F (enumerated), inputs symbolic. Violations are reported only after native replay against the real build; sampled passing paths are replayed natively and their observation digests compared."
+def gram(text, ref, tech="symbolic execution of go/ssa over symbolic input bytes + SMT (z3) path feasibility/models; grammar family enumerated; native replay"):
+    return dict(text=text, note=GRAM_NOTE, technique=tech, ref=ref)
 claimed = {
+ "C01": gram("Bounded symbolic model checking of the real combinators: for every grammar of the curated family F and every input of length <= N (bytes symbolic, all 256 values except CR) the alternatives returned by the memoized root nonterminal are compared with an independent least-fixpoint reference semantics (ends always, trees when finitely many), plus span contiguity of every returned tree. Each explored path stands for a whole class of inputs (its path condition).", "DESIGN.md section 4 C01"),
+ "C02": gram("Same family (recursive grammars) and inputs: activation probes inside and outside every Memoize assert at every call that no memoized parser is active more than remaining+2 (inside) times at one position; termination within the engine's step/depth budget is required of every path (an exceeded budget is reported, never counted as success).", "DESIGN.md section 4 C02"),
+ "C03": gram("Relational check on the same symbolic input: plain build vs. build with a chosen subset of sub-parsers memoized (with/without memoized nonterminals): identical ordered results, error position and message, furthest context error position, at most one run per position under Memoize, identical second run with a fresh context (map iteration rotations explored).", "DESIGN.md section 4 C03"),
+ "C04": gram("For every grammar of F (Any/Choice named or not) and every input of length <= N: parsley.Parse returns exactly one of node/error for plain and Sentence roots, Sentence succeeds iff the reference derives the whole input and then spans it, Evaluate with an interpreter on every non-terminal returns value xor error and never panics (a Go panic on any path is a violation).", "DESIGN.md section 4 C04"),
+ "C06": gram("For every grammar of F and every non-matching input of length <= N (line feeds included): the rendered error is parsed back, its line:column is mapped to an offset with the harness's own line table, and compared with the furthest failed terminal / end-of-input attempt recorded by probes (<= always, == when Any/Choice are named); the expectation must be one that failed there; the position inside the wrapped parsley.Error (empty FileSet run) must agree.", "DESIGN.md section 4 C06"),
+ "C07": gram("Snapshot probes around every parser of every grammar of F plus six sharing shapes: each returned node/list is re-rendered through the value that was returned at the end of the parse and after asking every memoized nonterminal again at every position; any difference is a violation. The RightTrim-in-place finding is listed in known_findings.json.", "DESIGN.md section 4 C07"),
+ "C14": gram("By reduction instead of exploring interleavings: the engine logs every store; for every grammar of F and every input of length <= N the parse/evaluate phase must perform no non-atomic store into any object that existed before it began (parser graph, package-level variables; errors.As modelled as a store through its target). No such store on any feasible path implies no conflicting access pair for any number of goroutines and any schedule. A violating input is replayed natively from 8 goroutines under the race detector.", "DESIGN.md section 4 C14", "symbolic execution of go/ssa with a store log (write-set reduction) + SMT path feasibility; native replay under -race"),
+ "C17": gram("For 7 unambiguous families and every word over the family's alphabet of length 2h (h <= H, bytes symbolic): Context.CallCount <= (n+1)^4, calls(2h) <= 16*calls(h) on the prefix, and the count and result are identical on a second run under other map iteration orders. Reduced bound: lengths of several hundred bytes are outside this technique.", "DESIGN.md section 4 C17"),
  "C15": dict(
    text="Bounded symbolic model checking of the real go/ssa of data/intset.go and data/intmap.go: from an arbitrary valid pre-state (any contents as 64-bit symbolic integers, any length/spare-capacity combination up to the bound, built through the public API) one operation pattern is executed symbolically; every result and every earlier value is compared with a list/association-list model by SMT queries (pathcond and not-assertion unsat), plus public-API histories of bounded length. One step from an arbitrary valid state covers histories of any length for the step properties; contents are unrestricted 64-bit values.",
    note="Trusted: go/packages+go/ssa, the gosym interpreter/simplifier/SMT printer, z3 4.8.12, the append-growth table measured from the runtime, the spec model in harness/h15. Bounds: set length <= K (2 quick / 4 thorough), map entries <= N (2 / 3), histories of 2 / 3 operations; map iteration orders = rotations (Go's small-map behaviour) for the first ranges after the operation. Violations are reported only after native replay against the real build.",
